@@ -5,8 +5,9 @@ import Uquic.Proofs.WireMoreTP3
 set_option linter.unusedSimpArgs false
 set_option linter.unusedVariables false
 
-namespace Uquic.Proofs.Wire
-open Uquic.Model.Wire Uquic.Model.Wire.Varint Uquic.Model.Wire.TP
+namespace Uquic.Proofs.WireMore
+open Uquic.Proofs.Wire
+open Uquic.Model.Wire Uquic.Model.Wire.Varint Uquic.Model.Wire.TP Uquic.Model.Wire.TP.RT
 
 /-- the loop state after `unmarshal` has read what `Marshal(server)` wrote -/
 def stServer (p : Params) (g : Nat) : LoopSt :=
@@ -212,4 +213,4 @@ theorem loopTicket (p : Params) (hv : ValidTicket p) (hfit : itemsFit (ticketIte
   refine (S_rsa perspectiveServer p.enableResetStreamAt _ _).trans ?_
   exact L_nil _ _
 
-end Uquic.Proofs.Wire
+end Uquic.Proofs.WireMore
